@@ -650,6 +650,23 @@ func (e *Exec) pnftSweep(r *Replica, m *Model, height int64, full bool, atH int6
 			if !full && !rng.Chance(0.3) {
 				continue
 			}
+			if rng.Chance(0.1) {
+				// whatever the handler makes of the denom "" (an error, an empty page): tokens of other denoms are not in it
+				q0 := n.Query(qPNFTsBy, &pnfttypes.QueryPNFTsByDenomOwnerRequest{DenomId: "", Owner: a.Addr.String()}, height)
+				if e.qpanic(q0, "PNFTsByDenomOwner") {
+					return
+				}
+				var r0 pnfttypes.QueryPNFTsByDenomOwnerResponse
+				if q0.OK() && r0.Unmarshal(q0.Value) == nil {
+					for _, t := range r0.Pnfts {
+						if t != nil && t.DenomId != "" {
+							e.viol("C12", "listing.pnfts_by_owner.foreign_denom", "denom:", "replica %d height %d: PNFTsByDenomOwner(\"\",%s) lists %s/%s, a token of another denom", r.ID, atH, a.Addr, t.DenomId, t.Id)
+							return
+						}
+					}
+				}
+				e.Stats.Inc("q.pnfts_by_owner.empty_denom")
+			}
 			ownerArg := a.Addr.String()
 			if rng.Chance(0.25) {
 				ownerArg = strings.ToUpper(ownerArg) // bech32's other legal spelling of the same account: the handler decodes the argument
